@@ -6,7 +6,8 @@ use serde_json::json;
 use std::process::{Command, Stdio};
 
 fn fuzz_dir() -> String {
-    format!("{}/fuzz", root())
+    // the fuzz crate is part of the machinery, not a result: it is always the one beside the harness
+    format!("{}/fuzz", VERIF_ROOT)
 }
 
 /// golden inputs: one frame per opcode, small pipelines, the regress streams
@@ -83,7 +84,7 @@ pub fn campaign(ctx: &Ctx, acc: &Accum, target: &str, runs_per_worker: u64, work
     let _ = std::fs::create_dir_all(&art);
     let mut children = vec![];
     for w in 0..workers {
-        let corpus = format!("{}/corpus/{}-{}-{}", fuzz_dir(), target, ctx.seed, w);
+        let corpus = format!("{}/corpus/{}-{}-{}-{}", fuzz_dir(), target, ctx.seed, std::process::id(), w);
         let _ = std::fs::remove_dir_all(&corpus);
         let _ = std::fs::create_dir_all(&corpus);
         for (i, s) in seeds(target).iter().enumerate() {
